@@ -68,14 +68,16 @@ def floors(tier):
     if tier == 'quick':
         f.update({'subcase:judged': 250, 'probe:strong': 180, 'build:make': 100,
                   'calibration:reference-build': 450,
-                  'probe:pair-vs-reference': 30,
+                  'probe:pair-vs-reference': 30, 'mix:judged': 10,
+                  'mix:multi-then-single': 6,
                   'distinct_nontrivial': 180, 'lang:c': 120, 'lang:c++': 120})
     else:
         f.update({'subcase:judged': 3000, 'probe:strong': 500,
                   'probe:pair-vs-reference': 2200, 'build:make': 1000,
                   'calibration:reference-build': 4000,
                   'distinct_nontrivial': 2500, 'compiler:clang': 1200,
-                  'lang:c': 1200, 'lang:c++': 1200, 'lang:f95': 100})
+                  'lang:c': 1200, 'lang:c++': 1200, 'lang:f95': 100,
+                  'mix:judged': 120, 'mix:multi-then-single': 60})
     return f
 
 
@@ -274,6 +276,9 @@ def gen_subs(tier, seed):
 def cases(tier, seed):
     subs = gen_subs(tier, seed)
     flt = os.environ.get('VERIF_C16_FILTER')      # development aid only
+    if not flt or re.search(flt, 'mixlang'):
+        for case in gen_mix(tier, seed):
+            yield case
     if flt:
         subs = [s for s in subs if re.search(flt, '%s %s %s' % (
             s['compiler'], s['lang'], describe(s['items'])))]
@@ -823,6 +828,8 @@ def minimise(case, mech, wit, res):
 
 def run_case(case):
     res = CaseResult()
+    if case.get('kind') == 'mixlang':
+        return run_mix(case, res)
     res.evaluations = len(case['subs'])
     found = run_project(case, res)
     seen = set()
@@ -836,3 +843,348 @@ def run_case(case):
     return res
 
 
+
+
+# --------------------------------------------------------------------------
+# mixed-language projects: sequences of global_options() calls
+#
+# One program made of a C and a C++ translation unit (in one target, or the C
+# part in a sibling static_library).  build.bfg issues a sequence of
+# global_options() calls - language lists and single languages in varying
+# order, semantic options and raw strings, list and string form - optionally
+# with per-target compile_options and CFLAGS/CXXFLAGS/CPPFLAGS.  Model: a
+# translation unit of language L sees exactly the options of the calls whose
+# `lang` names L (documented: "for the language (or list of languages) lang"),
+# plus the target's and its language's environment flags.  Probe: each part of
+# the program reports every macro name used anywhere in the case, and
+# __STDC_VERSION__/__cplusplus, _REENTRANT, __OPTIMIZE__; compared with a
+# hand-written gcc/g++ build with the model's flags.
+
+MIX_STD = {'c': ['c99', 'c11', 'gnu99'], 'c++': ['c++14', 'c++17', 'gnu++14']}
+
+
+def _mix_spec_flag(sp):
+    k = sp['k']
+    if k == 'define':
+        return '-D' + sp['name'] + ('' if sp.get('val') is None
+                                    else '=' + sp['val'])
+    if k == 'std':
+        return '-std=' + sp['val']
+    if k == 'pthread':
+        return '-pthread'
+    if k == 'optimize':
+        return '-O3'
+    raise ValueError(sp)
+
+
+def _mix_spec_expr(sp):
+    if sp.get('raw'):
+        return q(_mix_spec_flag(sp))
+    k = sp['k']
+    if k == 'define':
+        return ('opts.define(%s)' % q(sp['name']) if sp.get('val') is None
+                else 'opts.define(%s, %s)' % (q(sp['name']), q(sp['val'])))
+    if k == 'std':
+        return 'opts.std(%s)' % q(sp['val'])
+    if k == 'pthread':
+        return 'opts.pthread()'
+    if k == 'optimize':
+        return "opts.optimize('speed')"
+    raise ValueError(sp)
+
+
+def mix_pattern(calls):
+    """Does the sequence contain a call naming >= 2 languages followed by a
+    call naming only one?  (counted; the interesting aliasing shape)"""
+    for i, c in enumerate(calls):
+        if len(c['langs']) > 1 and any(len(d['langs']) == 1
+                                       for d in calls[i + 1:]):
+            return True
+    return False
+
+
+def _mix_random(rng, n):
+    counter = [0]
+
+    def define(raw=None):
+        counter[0] += 1
+        return {'k': 'define', 'name': 'VFG%d' % counter[0],
+                'val': rng.choice([None, '1', '7', '42']),
+                'raw': rng.random() < 0.35 if raw is None else raw}
+    ncalls = rng.randint(2, 4)
+    shapes = [['c', 'c++'], ['c++', 'c'], ['c'], ['c++']]
+    calls = []
+    have_std = set()
+    for i in range(ncalls):
+        langs = list(rng.choice(shapes))
+        form = 'string' if rng.random() < 0.2 else 'list'
+        specs = [define(raw=True if form == 'string' else None)
+                 for _ in range(rng.randint(1, 2))]
+        if form == 'list':
+            if len(langs) == 1 and langs[0] not in have_std and rng.random() < 0.6:
+                have_std.add(langs[0])
+                specs.append({'k': 'std', 'val': rng.choice(MIX_STD[langs[0]]),
+                              'raw': rng.random() < 0.3})
+            if rng.random() < 0.3:
+                specs.append({'k': rng.choice(['pthread', 'optimize']),
+                              'raw': rng.random() < 0.3})
+            rng.shuffle(specs)
+        calls.append({'langs': langs, 'form': form, 'specs': specs})
+    if not mix_pattern(calls) and rng.random() < 0.7:
+        calls.insert(0, {'langs': ['c', 'c++'], 'form': 'list',
+                         'specs': [define()]})
+        calls.append({'langs': [rng.choice(['c', 'c++'])], 'form': 'list',
+                      'specs': [define()]})
+    case = {'calls': calls, 'target': [], 'env': {},
+            'layout': rng.choice(['one-target', 'one-target', 'sibling'])}
+    if rng.random() < 0.5:
+        case['target'] = [dict(define(), name='VFT1')]
+    if rng.random() < 0.5:
+        for var, name in (('CFLAGS', 'VFEC'), ('CXXFLAGS', 'VFEX'),
+                          ('CPPFLAGS', 'VFEP')):
+            if rng.random() < 0.6:
+                case['env'][var] = ['-D%s=%d' % (name, rng.randint(1, 9))]
+    return case
+
+
+def gen_mix(tier, seed):
+    rng = core.rng_for(seed, 'c16mix', tier)
+
+    def d(name, val=None, raw=False):
+        return {'k': 'define', 'name': name, 'val': val, 'raw': raw}
+    fixed = [
+        [(['c', 'c++'], [d('VF_COMMON')]),
+         (['c++'], [{'k': 'std', 'val': 'c++14'}, d('VF_ONLY_CXX')])],
+        [(['c', 'c++'], [d('VF_COMMON', '3')]),
+         (['c'], [{'k': 'std', 'val': 'c99'}, d('VF_ONLY_C')])],
+        [(['c++'], [d('VF_ONLY_CXX', '5')]), (['c++', 'c'], [d('VF_COMMON')]),
+         (['c'], [d('VF_ONLY_C', raw=True)])],
+        [(['c++', 'c'], [d('VF_COMMON', raw=True), {'k': 'pthread'}]),
+         (['c'], [d('VF_ONLY_C')]), (['c++'], [d('VF_ONLY_CXX')])],
+    ]
+    compilers = ['gcc'] if tier == 'quick' else ['gcc', 'clang']
+    nrand = 8 if tier == 'quick' else 70
+    n = 0
+    for compiler in compilers:
+        pool = []
+        for k, seq in enumerate(fixed):
+            pool.append({'calls': [{'langs': l, 'form': 'list', 'specs': sp}
+                                   for l, sp in seq],
+                         'target': [], 'env': {},
+                         'layout': 'sibling' if k == 3 else 'one-target'})
+        for _ in range(nrand):
+            pool.append(_mix_random(rng, n))
+        for c in pool:
+            n += 1
+            yield dict(c, kind='mixlang', compiler=compiler, tag='m%04d' % n)
+
+
+def mix_flags(case, lang):
+    """The model: reference flags a TU of `lang` must see."""
+    env = case.get('env', {})
+    out = list(env.get('CPPFLAGS', [])) + list(env.get(R.LANGS[lang]['flagsvar'], []))
+    for c in case['calls']:
+        if lang in c['langs']:
+            out += [_mix_spec_flag(sp) for sp in c['specs']]
+    out += [_mix_spec_flag(sp) for sp in case.get('target', [])]
+    return out
+
+
+def mix_names(case):
+    names = []
+    for c in case['calls']:
+        names += [sp['name'] for sp in c['specs'] if sp['k'] == 'define']
+    names += [sp['name'] for sp in case.get('target', []) if sp['k'] == 'define']
+    for fl in case.get('env', {}).values():
+        names += [f[2:].split('=')[0] for f in fl]
+    out = []
+    for x in names:
+        if x not in out:
+            out.append(x)
+    return out
+
+
+def mix_sources(case):
+    tag = case['tag']
+    names = mix_names(case)
+
+    def table(prefix):
+        t = ''
+        for nme in names:
+            t += ('#ifdef %s\n  "VFP:%s:%s%s=" VS(%s),\n#else\n'
+                  '  "VFP:%s:%s%s=<undefined>",\n#endif\n'
+                  % (nme, tag, prefix, nme, nme, tag, prefix, nme))
+        two = '#if %s\n  "VFP:%s:%s%s=1",\n#else\n  "VFP:%s:%s%s=0",\n#endif\n'
+        for key, cond in (('OPT', 'defined(__OPTIMIZE__)'),
+                          ('REENTRANT', 'defined(_REENTRANT)'),
+                          ('STRICT', 'defined(__STRICT_ANSI__)')):
+            t += two % (cond, tag, prefix, key, tag, prefix, key)
+        t += ('#ifdef __STDC_VERSION__\n  "VFP:%s:%sSTDC=" VS(__STDC_VERSION__),\n'
+              '#else\n  "VFP:%s:%sSTDC=none",\n#endif\n' % (tag, prefix, tag, prefix))
+        t += ('#ifdef __cplusplus\n  "VFP:%s:%sCPP=" VS(__cplusplus),\n'
+              '#else\n  "VFP:%s:%sCPP=none",\n#endif\n' % (tag, prefix, tag, prefix))
+        return t
+    head = '#define VS_(x) #x\n#define VS(x) VS_(x)\n'
+    c = ('/* C16 mixed-language probe %s: the C part */\n' % tag + head +
+         'const char *const *vf_c_probe(void);\n'
+         'static const char *const vf_c[] = {\n' + table('C_') + '  0\n};\n'
+         'const char *const *vf_c_probe(void) { return vf_c; }\n')
+    x = ('/* C16 mixed-language probe %s: the C++ part */\n' % tag +
+         '#include <stdio.h>\n' + head +
+         'extern "C" const char *const *vf_c_probe(void);\n'
+         'static const char *const vf_x[] = {\n' + table('X_') + '  0\n};\n'
+         'int main() {\n  const char *const *p;\n'
+         '  for (p = vf_x; *p; p++) puts(*p);\n'
+         '  for (p = vf_c_probe(); *p; p++) puts(*p);\n  return 0;\n}\n')
+    return {tag + '_c.c': c, tag + '_x.cpp': x}
+
+
+def mix_bfg(case):
+    tag = case['tag']
+    lines = ['# C16 mixed-language project %s' % tag]
+    for c in case['calls']:
+        if c['form'] == 'string':
+            o = q(' '.join(_mix_spec_flag(sp) for sp in c['specs']))
+        else:
+            o = '[' + ', '.join(_mix_spec_expr(sp) for sp in c['specs']) + ']'
+        lang = q(c['langs'][0]) if len(c['langs']) == 1 else repr(c['langs'])
+        lines.append('global_options(%s, lang=%s)' % (o, lang))
+    t = '[' + ', '.join(_mix_spec_expr(sp) for sp in case.get('target', [])) + ']'
+    if case['layout'] == 'sibling':
+        lines.append('cpart = static_library(%s, files=[%s], compile_options=%s)'
+                     % (q(tag + '_l'), q(tag + '_c.c'), t))
+        lines.append('executable(%s, files=[%s], compile_options=%s, libs=[cpart])'
+                     % (q(tag), q(tag + '_x.cpp'), t))
+    else:
+        lines.append('executable(%s, files=[%s, %s], compile_options=%s)'
+                     % (q(tag), q(tag + '_x.cpp'), q(tag + '_c.c'), t))
+    return '\n'.join(lines) + '\n'
+
+
+def mix_describe(case):
+    return ' ; '.join('%s<-%s%s' % ('+'.join(c['langs']),
+                                    ','.join(_mix_spec_flag(sp) + ('' if sp.get('raw') else '*')
+                                             for sp in c['specs']),
+                                    '(str)' if c['form'] == 'string' else '')
+                      for c in case['calls'])
+
+
+def run_mix(case, res):
+    res.evaluations = 1
+    compiler, tag = case['compiler'], case['tag']
+    root = core.mkscratch('c16m')
+    src, bld, ref = (os.path.join(root, x) for x in ('src', 'bld', 'ref'))
+    try:
+        os.makedirs(ref)
+        files = mix_sources(case)
+        files['build.bfg'] = mix_bfg(case)
+        proj.write_tree(src, files)
+        env0 = core.base_env()
+        envadd = {'CC': R.COMPILERS[compiler]['c'],
+                  'CXX': R.COMPILERS[compiler]['c++']}
+        for var, fl in case.get('env', {}).items():
+            envadd[var] = R.quote_join(fl)
+        env = core.base_env(envadd)
+        # ---- the hand-written build (calibration + expectation)
+        flags = {l: mix_flags(case, l) for l in ('c', 'c++')}
+        cc, cxx = R.COMPILERS[compiler]['c'], R.COMPILERS[compiler]['c++']
+        log = []
+        for argv in ([cc] + flags['c'] + ['-c', os.path.join(src, tag + '_c.c'),
+                                          '-o', os.path.join(ref, 'c.o')],
+                     [cxx] + flags['c++'] + ['-c', os.path.join(src, tag + '_x.cpp'),
+                                             '-o', os.path.join(ref, 'x.o')],
+                     [cxx] + (['-pthread'] if '-pthread' in flags['c++'] else []) +
+                     [os.path.join(ref, 'x.o'), os.path.join(ref, 'c.o'),
+                      '-o', os.path.join(ref, tag)]):
+            rc, out = core.run(argv, cwd=ref, env=env0, timeout=120)
+            log.append({'argv': argv, 'rc': rc, 'out': out[-800:]})
+        res.ev('calibration:reference-build')
+        desc = mix_describe(case)
+        label = '%s mixlang' % compiler
+        if not os.path.isfile(os.path.join(ref, tag)):
+            res.exclude('reference-build-fails: %s [%s]' % (desc, label))
+            res.ev('calibration:excluded')
+            return res
+        rc, out = core.run([os.path.join(ref, tag)], env=env0, timeout=60)
+        want = R.parse_vfp(out, tag)
+        # the reference must itself agree with the model (else: harness bug)
+        names = mix_names(case)
+        for lang, pre in (('c', 'C_'), ('c++', 'X_')):
+            given = set(f[2:].split('=')[0] for f in flags[lang]
+                        if f.startswith('-D'))
+            for nme in names:
+                if (want.get(pre + nme) != '<undefined>') != (nme in given):
+                    res.inconclusive = ('reference disagrees with the model: %s %s'
+                                        % (pre + nme, desc))
+                    return res
+        # ---- bfg9000
+        rc, cout = proj.configure(src, bld, 'make', env=env)
+        res.ev('build:configure')
+        res.ev('mix:judged')
+        res.ev('compiler:' + compiler)
+        if mix_pattern(case['calls']):
+            res.ev('mix:multi-then-single')
+        res.key([compiler, 'mixlang', desc, case.get('target'), case.get('env'),
+                 case['layout']], True)
+        res.classes.add('mixlang:' + case['layout'])
+        for c in case['calls']:
+            res.classes.add('mixlang-call:%s:%s' % ('+'.join(c['langs']), c['form']))
+        base_w = {'compiler': compiler, 'lang': 'c+c++', 'tag': tag,
+                  'opt': 'global_options', 'place': 'global', 'calls': desc,
+                  'layout': case['layout'], 'env': case.get('env'),
+                  'target': [_mix_spec_flag(sp) for sp in case.get('target', [])],
+                  'reference_commands': _cmds(log), '__case__': case}
+        if rc != 0:
+            errs = [ln for ln in cout.splitlines() if ln.startswith('error:')]
+            res.violate(('configure-failed', 'global_options', 'mixlang'),
+                        dict(base_w, stage='configure',
+                             error=(errs or cout.strip().splitlines()[-1:])[0][:400]))
+            return res
+        rc, mout = proj.build(bld, 'make', targets=['all'],
+                              extra=['-k', '-j2', '-Otarget'], env=env, timeout=600)
+        res.ev('build:make')
+        got = {}
+        exe = os.path.join(bld, tag)
+        if os.path.isfile(exe):
+            rc2, out2 = core.run([exe], env=env0, timeout=60)
+            got = R.parse_vfp(out2, tag)
+        res.ev('probe:observed-bfg')
+        res.ev('mix:tu-compared', 2)
+        diff = sorted(k for k in set(want) | set(got) if want.get(k) != got.get(k))
+        if res.sample is None:
+            res.sample = {'compiler': compiler, 'calls': desc, 'layout': case['layout'],
+                          'env': case.get('env'), 'reference': want, 'bfg9000': got,
+                          'bfg_commands': tag_lines(mout, tag, 4)}
+        if not diff:
+            return res
+        # ---- classify: which language's options ended up where?
+        only = {}
+        for lang, other in (('c', 'c++'), ('c++', 'c')):
+            only[lang] = [f for f in flags[lang] if f not in flags[other]]
+        leaks = []
+        for ln in mout.splitlines():
+            for lang, fn, other in (('c', tag + '_c.c', 'c++'),
+                                    ('c++', tag + '_x.cpp', 'c')):
+                if fn in ln and ' -c ' in ln:
+                    try:
+                        toks = shlex.split(ln)
+                    except ValueError:
+                        continue
+                    if any(t in toks for t in only[other]):
+                        leaks.append('%s->%s' % (other, lang))
+        wit = dict(base_w, differing=diff[:12],
+                   expected={k: want.get(k) for k in diff[:12]},
+                   observed={k: got.get(k) for k in diff[:12]},
+                   bfg_commands=tag_lines(mout, tag), built=bool(got),
+                   stage='probe' if got else 'build')
+        if leaks:
+            wit['leak'] = sorted(set(leaks))
+            res.violate(('global-options-leak', sorted(set(leaks))[0]), wit)
+        elif not got:
+            res.violate(('build-failed', 'global_options', 'mixlang'), wit)
+        else:
+            res.violate(('effect-differs', 'global_options', 'mixlang',
+                         'C' if diff[0].startswith('C_') else 'C++'), wit)
+        return res
+    finally:
+        core.rmtree(root)
